@@ -697,6 +697,25 @@ func runC16(c *h.Ctx) {
 			}
 		}
 	}
+	// no item, no conversion: the method applied to an empty sequence (a lax
+	// empty array, a missing key) yields the empty sequence whatever its arguments
+	for i, pt := range []string{"$.decimal(0)", "$.decimal(1001,2)", "$.decimal(5,-1001)", "$.nokey.decimal(0)", "$[*].decimal(0,0)", "$.e[*].decimal(-3)", "$ ? (@.nokey.decimal(0) > 1)"} {
+		if !c.Mine(i) {
+			continue
+		}
+		for _, d := range []string{`[]`, `{"e":[]}`} {
+			if (strings.HasPrefix(pt, "$.decimal") || strings.HasPrefix(pt, "$[*]")) != (d == `[]`) {
+				continue
+			}
+			o := h.Call("query", cachedPath(pt), h.Decode(d, false), h.Opts{})
+			c.Eval(1)
+			if o.Class != h.OK || len(o.Items) != 0 {
+				c.Violate("decimal.args", h.F("kind", "no-item"), fmt.Sprintf("Query(%s) on %s = %s; there is no item to convert: the empty sequence", pt, d, o.Summary()), h.Case{Kind: "exec", Path: pt, Doc: d})
+			} else {
+				c.Held("decimal.args")
+			}
+		}
+	}
 	ps := []int64{1, 2, 3, 15, 16, 17, 38, 1000}
 	ss := []int64{-1000, -2, -1, 0, 1, 2, 15, 1000}
 	for _, t := range c16Nums {
